@@ -2,6 +2,7 @@ package c12
 
 import (
 	"fmt"
+	"sort"
 	"strings"
 	"sync"
 	"testing"
@@ -115,6 +116,13 @@ func TestProp(t *testing.T) {
 	k.Realms[realm].PreAuth = "none"
 	p := k.AddService(realm, kmsg.N(1, "ktuser"), 18)
 	k.AddService(realm, kmsg.N(2, "HTTP", "host.test.gokrb5"), 18)
+	// a password client that must pre-authenticate: a login with the wrong password is answered PREAUTH_REQUIRED, then PREAUTH_FAILED
+	if pc, err := k.AddPasswordClient(realm, kmsg.N(1, "pwuser"), "the right password", nil, 0, 18); err == nil {
+		pc.PreAuth = "info2"
+	} else {
+		r.Inconclusive("password client: " + err.Error())
+		return
+	}
 	kt := keytab.New()
 	if err := kt.Unmarshal(accept.KeytabV2([]accept.KeytabEntry{{Realm: realm, Name: p.Name, Kvno: 1, Etype: 18, Key: p.Keys[0].Key, Timestamp: 1}})); err != nil {
 		r.Inconclusive("keytab: " + err.Error())
@@ -167,6 +175,23 @@ func TestProp(t *testing.T) {
 		}
 		as = append(as, a)
 	}
+	// a login with a wrong password: the KDC's second answer (KRB-ERROR 24, after PREAUTH_REQUIRED) must come back as that error
+	for _, l := range limits {
+		for _, e := range all {
+			if e.udp == simkdc.Silent || e.tcp == simkdc.Silent {
+				continue
+			}
+			as = append(as, assignment{eps: []epMode{e}, limit: l, op: "login-wrong-password"})
+		}
+	}
+	for i := 0; i < 100; i++ {
+		a := assignment{eps: []epMode{all[rnd.Intn(len(all))], all[rnd.Intn(len(all))]}, limit: limits[rnd.Intn(3)], op: "login-wrong-password"}
+		if a.silent() > 0 {
+			i--
+			continue
+		}
+		as = append(as, a)
+	}
 	r.Count("assignments_1kdc", int64(n1))
 
 	sem := make(chan struct{}, 400)
@@ -203,7 +228,14 @@ func TestProp(t *testing.T) {
 		}(a, ck)
 	}
 	wg.Wait()
+	sort.Slice(cands, func(i, j int) bool { return cands[i].ck < cands[j].ck })
+	confirmed := 0
 	for _, c := range cands {
+		if confirmed >= 3 {
+			// not a timing artefact: report the rest as observed
+			r.Violation(c.fp, c.what, c.d)
+			continue
+		}
 		again := 0
 		for i := 0; i < 2; i++ {
 			runCase(r, k, kt, c.a, c.ck, true, func(fp, what string, d map[string]any) {
@@ -215,6 +247,7 @@ func TestProp(t *testing.T) {
 		if again == 2 {
 			c.d["reproduced_in_isolation"] = "2 of 2 re-runs"
 			r.Violation(c.fp, c.what, c.d)
+			confirmed++
 		} else {
 			r.Inc("failure_under_load_not_reproduced_in_isolation")
 			r.Note(fmt.Sprintf("%s: '%s' was observed once with 400 cases in flight and %d of 2 times alone: counted as a timing artefact of the harness, not judged", c.ck, c.fp, again))
@@ -224,6 +257,7 @@ func TestProp(t *testing.T) {
 	r.Require("outcome_success", 500)
 	r.Require("outcome_failure", 300)
 	r.Require("outcome_krb_error_6", 100)
+	r.Require("outcome_krb_error_24_after_preauth", 40)
 	r.Require("tcp_first_udp_fallback_success", 5)
 	r.Require("udp_toobig_tcp_success", 5)
 }
@@ -258,6 +292,12 @@ func runCase(r0 *vh.Run, k *simkdc.KDC, kt *keytab.Keytab, a assignment, ck stri
 	}
 	var opErr error
 	pnc, pv, pw := vh.Guard(func() {
+		if a.op == "login-wrong-password" {
+			cl := client.NewWithPassword("pwuser", realm, "not the right password", cfg, client.DisablePAFXFAST(true))
+			defer cl.Destroy()
+			opErr = cl.Login()
+			return
+		}
 		if a.op == "login" {
 			cl := client.NewWithKeytab("ktuser", realm, kt, cfg, client.DisablePAFXFAST(true))
 			defer cl.Destroy()
@@ -305,6 +345,28 @@ func runCase(r0 *vh.Run, k *simkdc.KDC, kt *keytab.Keytab, a assignment, ck stri
 		outcome = "success"
 	case carries(opErr, 6):
 		outcome = "krb_error_6"
+	}
+	if a.op == "login-wrong-password" {
+		// where a correct login would succeed, this one must end with the KDC's PREAUTH_FAILED
+		switch {
+		case opErr == nil:
+			viol("C12|wrong-password-login-succeeded", "a login with a wrong password succeeded", d)
+			return
+		case carries(opErr, 24):
+			if !okS {
+				viol("C12|krb-error-not-sent|"+a.op, "KRB-ERROR 24 was surfaced although no endpoint answers on a permitted transport", d)
+				return
+			}
+			r.Inc("outcome_krb_error_24_after_preauth")
+			return
+		case outcome == "krb_error_6":
+			// as for the other operations
+		default:
+			if !okF && okS && !okK {
+				viol("C12|krb-error-not-surfaced|after-pre-authentication", "every answering endpoint says PREAUTH_REQUIRED and then PREAUTH_FAILED, but the call failed with an error that is not that KDC error: "+opErr.Error(), d)
+				return
+			}
+		}
 	}
 	r.Inc("outcome_" + outcome)
 	d["permitted"] = fmt.Sprintf("success=%v krb-error-6=%v failure=%v (%s)", okS, okK, okF, why)
